@@ -29,6 +29,9 @@ func init() {
 }
 
 func runC17(c *Ctx) {
+	if !importing {
+		importObls(c, "C10", runC10, "X10", func(k string) bool { return containsAny(k, "common/socks5") })
+	}
 	p := c.P
 	var fns []*ssa.Function
 	set := map[*ssa.Function]bool{}
